@@ -30,6 +30,9 @@ static uint8_t vx_mapping_kind; static size_t vx_ncols, vx_offset, vx_key_index;
 /*@FUNC before_value_data@*/
 /*@FUNC m_columns_unquoted@*/
 /*@FUNC m_columns_quoted@*/
+/*@ENUM csv_mode@*/
+static int vx_mode, vx_level, vx_mark_level; static unsigned vx_lists_open, vx_begin_arrays, vx_end_arrays, vx_end_unquoted, vx_end_quoted2;
+/*@FUNC field_states@*/
 #ifdef VX_CBMC
 static struct csv_parser vx_p; static int vx_ec;
 static void setup(void)
@@ -44,6 +47,9 @@ static void setup(void)
 }
 void h_quoted_states(void) { setup(); quoted_states(&vx_p, &vx_ec); }
 void h_eof_quoted(void) { setup(); vx_end_quoted = 0; vx_default_arm = false; vx_column_index = nondet_size(); __CPROVER_assume(vx_column_index <= SIZE_MAX / 2); uint8_t st = nondet_u8(); __CPROVER_assume(st == csv_parse_state_quoted_string || st == csv_parse_state_escaped_value || st == csv_parse_state_before_last_quoted_field || st == csv_parse_state_between_values); vx_p.state_ = st; eof_quoted(&vx_p, &vx_ec); }
+void h_field_states(void) { setup(); vx_mode = nondet_int(); vx_level = nondet_int(); vx_mark_level = nondet_int(); vx_lists_open = nondet_u8(); vx_mapping_kind = nondet_u8(); vx_cursor_mode = nondet_bool(); vx_column_index = nondet_size(); vx_begin_arrays = 0; vx_end_arrays = 0; vx_end_unquoted = 0; vx_end_quoted2 = 0;
+    __CPROVER_assume(vx_column_index <= SIZE_MAX / 2 && vx_level >= 0 && vx_level <= 1000000 && vx_lists_open <= 1 && (vx_mode == csv_mode_header || vx_mode == csv_mode_data || vx_mode == csv_mode_subfields) && ((vx_mode == csv_mode_subfields) == (vx_lists_open == 1)));
+    uint8_t st = nondet_u8(); __CPROVER_assume(st >= csv_parse_state_before_unquoted_string && st <= csv_parse_state_before_last_quoted_field_tail); vx_p.state_ = st; field_states(&vx_p, &vx_ec); }
 void h_before_value_data(void) { setup(); vx_mapping_kind = nondet_u8(); vx_ncols = nondet_size(); vx_offset = nondet_size(); vx_column_index = nondet_size(); vx_cursor_mode = nondet_bool(); vx_keys = 0; __CPROVER_assume(vx_column_index >= vx_offset && vx_column_index <= SIZE_MAX / 4 && vx_ncols <= SIZE_MAX / 4 && vx_offset <= SIZE_MAX / 4); before_value_data(&vx_p, &vx_ec, nondet_bool()); }
 void h_m_columns_unquoted(void) { setup(); vx_end_values = 0; vx_skips = 0; m_columns_unquoted(&vx_p); }
 void h_m_columns_quoted(void) { setup(); vx_end_values = 0; vx_skips = 0; m_columns_quoted(&vx_p); }
